@@ -70,6 +70,17 @@ def run(tier):
     pl = vlib.Pipeline(PROP, "tcp_reasm", "pdu/HolderTrace", "HolderTrace.cfg", harness_args=["--own", "1", "--objects", "legacy", "--isns", "2", "--batch", "50"])
     pl.push(segs, "own", timeout=3000)
     pl.confirm(v, lambda scen, kind, detail, rec=None: {"family": "holder-follower", "kind": kind})
+    # the option value type (anchor include/tins/pdu_option.h): copy / move construction and assignment between values in the
+    # inline buffer and on the heap (spec/pdu/OptionPool)
+    om = vlib.model_check("pdu/OptionPool", "OptionPool_bfs.cfg", timeout=900)
+    ob, _ = vlib.tlc_generate("pdu/OptionPool", "OptionPool_bfs.cfg", timeout=900)
+    osim, _ = vlib.tlc_generate("pdu/OptionPool", "OptionPool_sim.cfg", simulate=300 if quick else 5000, depth=11, workers=4, timeout=900)
+    osim = sorted({vlib.canon_hash(s): s for s in osim}.values(), key=vlib.canon_hash)[: (3000 if quick else 60000)]
+    if quick:
+        ob = ob[vlib.seed() % 4::4]
+    po = vlib.Pipeline(PROP, "option_pool", "pdu/OptionPoolTrace", "OptionPoolTrace.cfg", harness_args=["--batch", "100"])
+    po.push(ob + osim, "opt", timeout=3000)
+    po.confirm(v, lambda scen, kind, detail, rec=None: {"family": "option-pool", "kind": kind})
     rc = v.finish()
     classes = set()
     for rec in vlib.read_trace_index(p.dir + "/pdu_forest-s0.trace.ndjson").values():
@@ -79,6 +90,10 @@ def run(tier):
         "states": sum(r.distinct for r in mc) + p.stats["tlc_states"],
         "transitions": sum(r.generated for r in mc) + p.stats["tlc_generated"],
         "traces_validated_against_impl": p.stats["executions"] + p3.stats["executions"] + ph.stats["executions"] + pl.stats["executions"],
+        "option_pool": {"model_states": om.distinct, "programs": po.stats["executions"],
+                        "rule": "programs of new / copy-construct / copy-assign (incl. self) / move-construct / move-assign / delete over 3 slots of real "
+                                "PDUOption objects with payloads of 0, 3, 8, 9, 20, 64 octets (inline capacity 8): all programs of length 4 (a quarter per seed in "
+                                "quick) + TLC-simulated programs of length 10; every slot holds the model's value after every step; LSan at the end"},
         "holders": {"model": {"distinct": hm[0].distinct, "generated": hm[0].generated, "mutants_refuted": ["free_keeps_map", "dup_drops_payload", "steal_without_take"]},
                     "reassembler_executions": ph.stats["executions"], "legacy_follower_executions": pl.stats["executions"],
                     "rule": "IPv4Reassembler on fragment schedules (duplicates before and after completion, two datagrams) and the legacy "
@@ -115,6 +130,8 @@ def replay(path):
             return vlib.Pipeline(PROP, "wire_cat", "wire/CatTrace", "CatTrace_C12.cfg").replay_file(path)
         f.seek(0)
         h = json.load(f)["replay"]
+        if h["harness"] == "option_pool":
+            return vlib.Pipeline(PROP, "option_pool", "pdu/OptionPoolTrace", "OptionPoolTrace.cfg").replay_file(path)
         if h["harness"] in ("ip_frag", "tcp_reasm"):
             return vlib.Pipeline(PROP, h["harness"], "pdu/HolderTrace", "HolderTrace.cfg").replay_file(path)
     return vlib.Pipeline(PROP, "pdu_forest", "pdu/PDUForestTrace").replay_file(path)
